@@ -140,7 +140,17 @@ func (in *Interp) ensureInit(pkg *ssa.Package) {
 	initFn := pkg.Func("init")
 	if initFn != nil && initFn.Blocks != nil {
 		saved := in.curFrame
+		// package initialisation happens before every goroutine of the program: no scheduling
+		// inside it, and its writes are not candidates for data races
+		in.sch.inInit++
+		if in.sch.race != nil {
+			in.sch.race.skip++
+		}
 		in.callFunction(nil, initFn, nil, nil)
+		if in.sch.race != nil {
+			in.sch.race.skip--
+		}
+		in.sch.inInit--
 		in.curFrame = saved
 	}
 	in.pkgInit[pkg] = 2
@@ -332,7 +342,11 @@ func (fr *frame) pos() string {
 			}
 		}
 	}
-	return fmt.Sprintf("%s:%d", shortFile(p.Filename), p.Line)
+	fn := p.Filename
+	if rd := fr.in.P.repoDir; rd != "" && strings.HasPrefix(fn, rd+"/") {
+		fn = "/repo/" + fn[len(rd)+1:]
+	}
+	return fmt.Sprintf("%s:%d", shortFile(fn), p.Line)
 }
 
 func shortFile(f string) string {
@@ -351,7 +365,7 @@ func shortFile(f string) string {
 func (in *Interp) where() string {
 	fr := in.curFrame
 	var parts []string
-	for i := 0; fr != nil && i < 6; i++ {
+	for i := 0; fr != nil && fr.fn != nil && i < 6; i++ {
 		parts = append(parts, fr.fn.String()+"@"+fr.pos())
 		fr = fr.caller
 	}
@@ -988,7 +1002,7 @@ func (in *Interp) callValue(fr *frame, fn value, args []value, call *ssa.CallCom
 }
 
 func (in *Interp) callSSA(fr *frame, fn *ssa.Function, args []value, env []value) value {
-	if fn.Name() == "init" && fn.Synthetic != "" && fr != nil && fn.Pkg != fr.fn.Pkg {
+	if fn.Name() == "init" && fn.Synthetic != "" && fr != nil && fr.fn != nil && fn.Pkg != fr.fn.Pkg {
 		// package initialisers of dependencies run lazily, on first access to one of their globals
 		return nil
 	}
